@@ -12,6 +12,7 @@
 import html.parser
 import io
 import re
+import sys
 
 PROBE = "\ue000"
 
@@ -55,6 +56,7 @@ class Tracer:
     def __init__(self, console, spy):
         self.events = []
         self.depth = 0
+        self.call_line = None
         self.spy = spy
         for name in self.NAMES:
             setattr(console, name, self._wrap(name, getattr(console, name)))
@@ -66,6 +68,7 @@ class Tracer:
             self.depth += 1
             n0 = len(self.spy.log)
             try:
+                self.call_line = sys._getframe().f_lineno + 1  # the line of the call below: `console.log` reports its caller
                 return orig(*a, **kw)
             finally:
                 self.depth -= 1
